@@ -911,7 +911,7 @@ def rule_N7(ctx, rule: str = "N7") -> None:
         for p in paths:
             if p.outcome != "return" or p.value is None or p.value[0] != "tuple" or len(p.value[1]) != 2:
                 continue
-            if p.valuation.get(N(first)) is not True:
+            if p.valuation.get(N(first)) is not True and p.valuation.get(("op", "is", N(first), C(None))) is not False:
                 continue
             n_first += 1
             val = p.value[1][0]
